@@ -320,8 +320,8 @@ static int setup_kind(const char *name)
 /* =========================================================== C16: allocation-failure enumeration */
 
 static const char *PRIOR[] = {"zeros", "0xFF", "0xA5", "copy-of-live-object", "copy-of-cleaned-up-object", "painted (--paint pattern; poisoned under MemorySanitizer)"};
-enum { F_CLEANUP, F_KEY, F_CTR, F_ENC, F_SWAP, F_CLEANUP2, F_KEY2, F_DEC, F_NOPS };
-static const char *FNAME[] = {"cleanup", "set_key", "set_counter", "use", "swap_modes", "cleanup", "set_key(other variant)", "use(other entry point / size)"};
+enum { F_CLEANUP, F_KEY, F_CTR, F_ENC, F_SWAP, F_CLEANUP2, F_KEY2, F_DEC, F_ENC0, F_NOPS };
+static const char *FNAME[] = {"cleanup", "set_key", "set_counter", "use", "swap_modes", "cleanup", "set_key(other variant)", "use(other entry point / size)", "use(0 bytes)"};
 
 static int f_call(int okind, Cipher c, void *h, int op)
 {
@@ -336,6 +336,8 @@ static int f_call(int okind, Cipher c, void *h, int op)
         return okind == OK_CTR ? ctr_set_tweaked_key(c, co, KEYS[1], (unsigned)cipher_bs(c) * 2) : par_set_key(c, po, KEYS[1], (unsigned)cipher_bs(c) * 3, 5, MANTIS_ENCRYPT);
     case F_CTR: return okind == OK_CTR ? ctr_set_counter(c, co, KEYS[1], (unsigned)cipher_bs(c)) : 0;
     case F_ENC: return okind == OK_CTR ? ctr_encrypt(c, co, out, in, 9) : par_crypt(c, po, out, in, tw, (size_t)par_batch(c, cipher_max_be(c)) + (size_t)cipher_bs(c), 0);
+    case F_ENC0:     /* an empty request is still a request on a dead object */
+        return okind == OK_CTR ? ctr_encrypt(c, co, out, in, 0) : par_crypt(c, po, out, in, tw, 0, 0);
     case F_DEC:      /* the other data entry point: parallel decrypt (Mantis has one entry point: a single block); CTR: a request longer than a batch */
         return okind == OK_CTR ? ctr_encrypt(c, co, out, in, (size_t)ctr_batch(c, cipher_max_be(c)) + 3)
                                : par_crypt(c, po, out, in, tw, c == CK_MANTIS ? (size_t)cipher_bs(c) : (size_t)par_batch(c, cipher_max_be(c)) + (size_t)cipher_bs(c), 1);
